@@ -65,6 +65,7 @@ def class_setup(m, modname):
     doc = A.Obj('document', {'context': ctx})
     outs = [(s2, v) for kind, s2, v in it.run_function(fn, env={'options': {}, 'document': doc, '__ctx': ctx}) if kind == 'return']
     need(len(outs) >= 1, '%s.ProcessOptions has no normal exit' % modname)
+    need(not it.imprecise, '%s.ProcessOptions: the counter declarations are not determined (%s)' % (modname, '; '.join(sorted(set(it.imprecise))[:2])))
     decls = {s2.env.get('__decl', ()) for s2, v in outs}
     need(len(decls) == 1, '%s.ProcessOptions declares counters that depend on unknown conditions' % modname)
     patched = {}
